@@ -279,11 +279,18 @@ def check_view(ctx, case):
   view = G.view_class(spec["endpoint"])(params)
   fails = [bool(f) for f in spec["failures"]]
   n = len(fails)
-  groups = [("optimized", spec["optimized_index"], view.points_sampled_for_af_values, view.points_sampled_for_af_value_vars,
-             view.scaled_optimized_lie_values, view.optimized_metrics_thresholds)]
-  if spec["constraint_index"]:
-    groups.append(("constraint", spec["constraint_index"], view.points_sampled_for_pf_values, view.points_sampled_for_pf_value_vars,
-                   view.scaled_constraint_lie_values, view.constraint_thresholds))
+  try:
+    groups = [("optimized", spec["optimized_index"], view.points_sampled_for_af_values, view.points_sampled_for_af_value_vars,
+               view.scaled_optimized_lie_values, view.optimized_metrics_thresholds)]
+    if spec["constraint_index"]:
+      groups.append(("constraint", spec["constraint_index"], view.points_sampled_for_pf_values, view.points_sampled_for_pf_value_vars,
+                     view.scaled_constraint_lie_values, view.constraint_thresholds))
+  except AttributeError as e:
+    # attribute names of the view are not part of the property: after a renaming the preprocessing is only reachable via C06
+    ctx.count("view: preprocessing attributes not found - skipped")
+    if not any(n.startswith("view preprocessing skipped") for n in ctx.notes):
+      ctx.notes.append(f"view preprocessing skipped: {e}")
+    return
   for gname, idx, got_vals, got_vars, got_lie, got_thr in groups:
     if not idx:
       continue
